@@ -3,7 +3,7 @@ import random
 
 from .. import scenario, tlc
 
-TEMPLATES = ['r2', 'se2', 'se3', 'se2c', 'mixed', 'se2far', 'se2fix', 'se3fix', 'r3', 'se3big', 'se2weighted', 'se2plain', 'se3reg']
+TEMPLATES = ['r2', 'se2', 'se3', 'se2c', 'mixed', 'se2far', 'se2fix', 'se3fix', 'r3', 'se3big', 'se2weighted', 'se2plain', 'se3reg', 'se2desc', 'se3desc']
 
 
 def model_check(run, max_iter, max_start):
